@@ -1132,13 +1132,15 @@ func (l *Ledger) Truncate(utxovmLastID []byte) error {
 		}
 	}
 
-	// 目标区块成为新的tip，主干上不再有下一个区块
-	block.NextHash = []byte{}
-	err = l.saveBlock(block, batchWrite)
+	// 目标区块成为新的tip，主干上不再有下一个区块; 写盘成功后再更新header cache
+	newTip := proto.Clone(block).(*pb.InternalBlock)
+	newTip.NextHash = []byte{}
+	newTipBuf, err := proto.Marshal(newTip)
 	if err != nil {
-		l.xlog.Warn("failed to save new tip block", "err", err)
+		l.xlog.Warn("failed to marshal new tip block", "err", err)
 		return err
 	}
+	batchWrite.Put(append([]byte(pb.BlocksTablePrefix), newTip.Blockid...), newTipBuf)
 
 	newMeta.TrunkHeight = block.Height
 	metaBuf, err := proto.Marshal(newMeta)
@@ -1153,6 +1155,8 @@ func (l *Ledger) Truncate(utxovmLastID []byte) error {
 		return err
 	}
 	l.meta = newMeta
+	l.blkHeaderCache.Add(string(newTip.Blockid), newTip)
+	l.blockCache.Del(string(newTip.Blockid))
 
 	l.xlog.Info("truncate blockid succeed")
 	return nil
